@@ -12,28 +12,28 @@ From RecordUpdate Require Import RecordUpdate.
 Import RecordSetNotations.
 
 Theorem C19_report_faults_frame : forall cx s c p fl, fault_frame s (fst (step cx s (OReportFaults c p fl))).
-Proof. exact report_faults_frame. Qed.
+Proof. first [exact report_faults_frame | apply report_faults_frame]. Qed.
 Print Assumptions C19_report_faults_frame.
 
 Theorem C19_recover_faults_frame : forall cx s c p fl, fault_frame s (fst (step cx s (ORecoverFaults c p fl))).
-Proof. exact recover_faults_frame. Qed.
+Proof. first [exact recover_faults_frame | apply recover_faults_frame]. Qed.
 Print Assumptions C19_recover_faults_frame.
 
 Theorem C19_faults_only_by_reports : forall cx s op,
   (forall c p fl, op <> OReportFaults c p fl) -> (forall c p fl, op <> ORecoverFaults c p fl) ->
   faults (fst (step cx s op)) = faults s /\ fault_idx (fst (step cx s op)) = fault_idx s /\ fishing (fst (step cx s op)) = fishing s.
-Proof. exact faults_only_by_reports. Qed.
+Proof. first [exact faults_only_by_reports | apply faults_only_by_reports]. Qed.
 Print Assumptions C19_faults_only_by_reports.
 
 Theorem C19_report_faults_requires_fishman : forall cx s c p fl s' d,
   step cx s (OReportFaults c p fl) = (s', OutTx COk d) ->
   is_Some (nodes s !! c) /\ is_fishman s c = true.
-Proof. exact report_faults_requires_fishman. Qed.
+Proof. first [exact report_faults_requires_fishman | apply report_faults_requires_fishman]. Qed.
 Print Assumptions C19_report_faults_requires_fishman.
 
 Theorem C19_recover_faults_requires : forall cx s c p fl s' d,
   step cx s (ORecoverFaults c p fl) = (s', OutTx COk d) ->
   exists n, nodes s !! c = Some n /\
             ((c = p /\ Z.land (n_status n) STATUS_SERVE_STORAGE <> 0) \/ (c <> p /\ is_fishman s c = true)).
-Proof. exact recover_faults_requires. Qed.
+Proof. first [exact recover_faults_requires | apply recover_faults_requires]. Qed.
 Print Assumptions C19_recover_faults_requires.
